@@ -2,10 +2,11 @@
     sumbool, sumor mapped to the OCaml types); no [Extract Constant]; nat, N, Z, positive stay the
     extracted inductive types.  Run in the directory where model.ml should land. *)
 From Coq Require Import ExtrOcamlBasic.
-From Rsbdd Require Import Core.Bdd Core.Ops Check.Prog.
+From Rsbdd Require Import Core.Bdd Core.Ops Check.Prog Check.Checkers.
 Extraction Language OCaml.
 Extraction "model.ml"
   bdd_eqb mk beval robddb ordb redb support height
   band bor bnot bimplies bite beq bxor bnor bnand bvar bconst aln amn exn
   count_leq count_lt count_geq count_gt count_eq bex1 bex ball fp_f bmodel binfer retain clean
-  rebuild_lit build_tt run run_infer.
+  rebuild_lit build_tt run run_infer
+  verdict_fun verdict_model verdict_retain verdict_infer find_diff.
